@@ -93,7 +93,7 @@ def run(ctx, rep):
     b = anchor(F, rep, "C05.gate", "decode::Decoder::read_frame")
     if b is not None:
         cs = call_blocks(b, r"stream::FrameHeader::read$")
-        rep.check("C05.gate", "Decoder::read_frame uses FrameHeader::read(streaminfo)", len(cs) >= 2 and not call_blocks(b, r"FrameHeader::read_subset$"),
+        rep.check("C05.gate", "Decoder::read_frame uses FrameHeader::read(streaminfo)", len(cs) >= 1 and not call_blocks(b, r"FrameHeader::read_subset$"),
                   loc_of(b), "%d calls of FrameHeader::read, 0 of read_subset" % len(cs))
         s = ok.summary(b)
         rep.check("C05.gate", "Decoder::read_frame=>block_size<=maximum_block_size", fact_match(s, "cmp", "^Le$", "block_size", "maximum_block_size"),
@@ -153,6 +153,16 @@ def run(ctx, rep):
                     nn += 1
                     f = pf.get(bi, TOP)
                     good = fact_match(f, "cmp", "^Eq$", "^const:0$", "total_samples") or fact_match(f, "is", "^None$", "total_samples")
+                    if not good and f is not TOP:
+                        # remaining == Some(0): the constant is a promoted `Some(0)`
+                        for x in f or ():
+                            if x[0] == "cmp" and x[1] == "Eq":
+                                for cst, other in ((str(x[2]), str(x[3])), (str(x[3]), str(x[2]))):
+                                    m = re.match(r"^const:(.*)::promoted\[(\d+)\]$", cst)
+                                    if m and "total_samples" in other:
+                                        pb = [y for y in F.bodies if y.path == m.group(1) and y.promoted == int(m.group(2))]
+                                        if pb and any(st2["rv"]["r"] == "agg" and st2["rv"].get("var") == "Some" and st2["rv"]["ops"] and op_int(st2["rv"]["ops"][0]) == 0 for bl2 in pb[0].blocks for st2 in bl2["s"]):
+                                            good = True
                     rep.check("C05.eof", "end of stream (Ok(None)) only when no samples are owed or the total is unknown", good, b.loc(st["sp"]),
                               "remaining == 0, or STREAMINFO declares no total",
                               "Decoder::read_frame can signal a clean end of stream while STREAMINFO still owes samples (truncation decoded silently); facts: %s" % fact_str(f))
